@@ -276,6 +276,176 @@ theorem C06_fetch_again_noop (t : Bool) (g : Guid) (st : Storage) (s : St) (l : 
     rw [this]
     exact ih (fun y hy => h y (by simp [hy]))
 
+
+/-! ## the final move into the cache under a fault (`fetchF`)
+
+  The move of a downloaded object from the temporary directory into the cache is the last write of a
+  bring.  `Mv.fails` is the outcome "the step fails half way or the process dies in it" (disk full, quota, file
+  size limit, kill).  The object appears at its address atomically or not at all, whether or not the temporary
+  directory is on the same device. -/
+/-- a failed final move changes nothing: no object, the cache as it was -/
+theorem C06_move_fails_cache_unchanged (t : Bool) (s : St) (a : Addr) (b : Bytes) (n : Nat) :
+    (moveInF t s a b (.fails n)).st = s ∧ (moveInF t s a b (.fails n)).done = false := ⟨rfl, rfl⟩
+
+/-- with every final move succeeding `fetchF` is `fetch`: the theorems about `fetch` are theorems about the
+    fault-free runs of `fetchF` -/
+theorem fetchF_all_ok (t : Bool) (g : Guid) (st : Storage) (s : St) (l : List (Addr × Dl)) :
+    fetchF t g st s (l.map (fun x => (x.1, x.2, Mv.ok))) = (fetch t g st s l, .ok) := by
+  unfold fetchF fetch
+  induction l generalizing s with
+  | nil => rfl
+  | cons x l ih =>
+    simp only [List.map_cons, List.foldl_cons, fetchWith]
+    have hf : fetchOne t g st s x = if (s.cache x.1).isSome then s else
+        match received g st x.1 x.2, tempFile g st x.1 x.2 with
+        | true, some b => moveIn t s x.1 b
+        | _, _ => s := rfl
+    rw [hf]
+    by_cases hc : (s.cache x.1).isSome
+    · simp only [hc, if_true]; exact ih s
+    · simp only [hc, Bool.false_eq_true, if_false]
+      cases hr : received g st x.1 x.2 <;> cases ht : tempFile g st x.1 x.2 <;>
+        first
+        | exact ih s
+        | (simp only [moveInF, if_true]; exact ih _)
+
+/-- one step of `fetchF`: an object that is in the cache afterwards was there before or is the complete, read-only
+    copy of what the storage holds for that address -/
+theorem C06_failed_final_move_leaves_no_object (t : Bool) (g : Guid) (st : Storage) (s : St)
+    (l : List (Addr × Dl × Mv)) (a : Addr) (o : Obj) (h : (fetchF t g st s l).1.cache a = some o) :
+    s.cache a = some o ∨ (st.objs (g, a) = some o.b ∧ o.ro = true) := by
+  unfold fetchF at h
+  induction l generalizing s with
+  | nil => exact Or.inl h
+  | cons x l ih =>
+    simp only [fetchWith] at h
+    split at h
+    · exact ih s h
+    · split at h
+      · rename_i b hrec htmp
+        have hb : st.objs (g, x.1) = some b := by
+          cases hx : x.2.1 <;> simp [received, tempFile, hx] at hrec htmp
+          exact htmp
+        cases hm : x.2.2 with
+        | ok =>
+          simp only [hm, moveInF, if_true] at h
+          rcases ih _ h with h' | h'
+          · unfold moveIn at h'
+            have h'' : upd s.cache x.1 (some ⟨b, true, s.clock⟩) a = some o := by cases t <;> simpa using h'
+            by_cases ha : a = x.1
+            · subst ha; simp at h''; subst h''; exact Or.inr ⟨hb, rfl⟩
+            · rw [upd_other _ _ ha] at h''; exact Or.inl h''
+          · exact Or.inr h'
+        | fails n =>
+          simp only [hm, moveInF, Bool.false_eq_true, if_false] at h
+          exact Or.inl h
+      · exact ih s h
+
+/-- for every pattern of download outcomes AND of failing final moves, with the temporary directory on the same
+    or on another file system: the cache after the fetch holds old objects and valid new ones only -/
+theorem C06_final_move_faults_never_corrupt (t : Bool) (g : Guid) (st : Storage) (hsa : SA st) (s : St)
+    (l : List (Addr × Dl × Mv)) : CacheFrom s (fetchF t g st s l).1 := by
+  intro a o h
+  rcases C06_failed_final_move_leaves_no_object t g st s l a o h with h' | ⟨h1, h2⟩
+  · exact Or.inl h'
+  · exact Or.inr ⟨hsa g a o.b h1, h2⟩
+
+/-- where the temporary directory is makes no difference, whatever fails -/
+theorem C06_final_move_tmp_independent (g : Guid) (st : Storage) (s : St) (l : List (Addr × Dl × Mv)) :
+    fetchF true g st s l = fetchF false g st s l := by
+  unfold fetchF
+  induction l generalizing s with
+  | nil => rfl
+  | cons x l ih =>
+    simp only [fetchWith]
+    have hm : ∀ b, (moveInF true s x.1 b x.2.2).st = (moveInF false s x.1 b x.2.2).st ∧
+        (moveInF true s x.1 b x.2.2).done = (moveInF false s x.1 b x.2.2).done := by
+      intro b; cases x.2.2 <;> exact ⟨rfl, rfl⟩
+    split
+    · exact ih s
+    · split
+      · rename_i b _ _
+        rw [(hm b).1, (hm b).2]
+        split
+        · exact ih _
+        · rfl
+      · exact ih s
+
+/-- objects that are in the cache stay, whatever fails -/
+theorem fetchF_keep (t : Bool) (g : Guid) (st : Storage) (s : St) (l : List (Addr × Dl × Mv)) :
+    CacheKeep s (fetchF t g st s l).1 := by
+  unfold fetchF
+  induction l generalizing s with
+  | nil => exact CacheKeep.refl s
+  | cons x l ih =>
+    simp only [fetchWith]
+    split
+    · exact ih s
+    · rename_i hn
+      split
+      · rename_i b _ _
+        cases hm : x.2.2 with
+        | ok =>
+          simp only [moveInF, if_true]
+          refine CacheKeep.trans ?_ (ih _)
+          intro a o ho
+          have hne : a ≠ x.1 := by intro hc; subst hc; simp [ho] at hn
+          unfold moveIn
+          cases t <;> simp [upd_other _ _ hne, ho]
+        | fails n =>
+          simp only [moveInF, Bool.false_eq_true, if_false]
+          exact CacheKeep.refl s
+      · exact ih s
+
+/-- bringing again after ANY pattern of failed downloads and failed final moves: a second fetch whose
+    commands and moves succeed puts the storage's bytes at every requested, stored address -/
+theorem C06_rebring_after_failed_move (t : Bool) (g : Guid) (st : Storage) (s : St)
+    (l1 : List (Addr × Dl × Mv)) (l2 : List (Addr × Dl)) (a : Addr) (b : Bytes)
+    (hst : st.objs (g, a) = some b) (hm : (a, Dl.ok) ∈ l2) (hnone : s.cache a = none) :
+    ∃ o, (fetch t g st (fetchF t g st s l1).1 l2).cache a = some o ∧ o.b = b := by
+  cases hc : (fetchF t g st s l1).1.cache a with
+  | none => exact fetch_brings t g st _ l2 a b hst hm hc
+  | some o =>
+    refine ⟨o, fetch_keep t g st _ l2 a o hc, ?_⟩
+    rcases C06_failed_final_move_leaves_no_object t g st s l1 a o hc with h | ⟨h, _⟩
+    · rw [hnone] at h; cases h
+    · rw [hst] at h; cases h; rfl
+
+/-- the sending repository of the witnesses: `p.txt` = `hi!` tracked (default configuration) -/
+def wA : St := ((St.init.userWrite ⟨0, 1⟩ [104, 105, 33]).track {} {} [⟨0, 1⟩]).1
+def wAddr : Addr := addrOf ⟨0, 1⟩ ⟨0, [104, 105, 33]⟩
+/-- the storage after `send` -/
+def wSt : Storage := send 7 wA { objs := fun _ => none } [(wAddr, Ul.ok)]
+/-- a clone: the records of `wA`, empty cache and workspace -/
+def wB : St := { wA with ws := fun _ => none, cache := fun _ => none }
+
+/-- **counterexample for the in-place copy (NOT the code)**: temporary directory on another file system, the final
+    move fails after 2 of the 3 bytes.  The partial copy sits AT the cache address; the second bring (no fault) takes
+    it for present, does not download again, and recheck delivers the 2 bytes as `p.txt`. -/
+theorem C06_in_place_copy_counterexample :
+    let r1 := fetchInPlace false 7 wSt wB [(wAddr, Dl.ok, Mv.fails 2)]
+    let s2 := (fetchInPlace false 7 wSt r1.1 [(wAddr, Dl.ok, Mv.ok)]).1
+    wSt.objs (7, wAddr) = some [104, 105, 33] ∧
+    r1.2 = .panic ∧ (r1.1.cache wAddr).map (·.b) = some [104, 105] ∧
+    (s2.cache wAddr).map (·.b) = some [104, 105] ∧
+    (s2.recheckOne {} none false ⟨0, 1⟩).2 = .ok ∧
+    ((s2.recheckOne {} none false ⟨0, 1⟩).1.readThrough ⟨0, 1⟩).map (·.1) = some [104, 105] := by decide
+
+/-- the same history with the code's move: nothing at the address after the failed bring, the second bring
+    downloads again and `p.txt` is byte-identical -/
+theorem C06_failed_final_move_then_rebring_witness :
+    let r1 := fetchF false 7 wSt wB [(wAddr, Dl.ok, Mv.fails 2)]
+    let s2 := (fetchF false 7 wSt r1.1 [(wAddr, Dl.ok, Mv.ok)]).1
+    r1.2 = .panic ∧ r1.1.cache wAddr = none ∧
+    (moveInF false wB wAddr [104, 105, 33] (Mv.fails 2)).hidden = some [104, 105] ∧
+    (s2.cache wAddr).map (·.b) = some [104, 105, 33] ∧
+    (s2.recheckOne {} none false ⟨0, 1⟩).2 = .ok ∧
+    ((s2.recheckOne {} none false ⟨0, 1⟩).1.readThrough ⟨0, 1⟩).map (·.1) = some [104, 105, 33] := by decide
+
+/-- with the temporary directory on the SAME file system the in-place variant is harmless too (`rename`):
+    the defect needs both, another device and a fault -/
+example : (fetchInPlace true 7 wSt wB [(wAddr, Dl.ok, Mv.fails 2)]).1.cache wAddr = none := by decide
+
 example : ∃ (sA : St) (o : Obj), sA.cache (addrOf ⟨0, 1⟩ ⟨0, [104]⟩) = some o ∧ SA { objs := fun _ => none } :=
   ⟨((St.init.userWrite ⟨0, 1⟩ [104]).track {} {} [⟨0, 1⟩]).1, ⟨[104], true, 1⟩, by decide, by intro g a b h; cases h⟩
 
@@ -293,3 +463,17 @@ open Repo in
 #print axioms C06_roundtrip
 open Repo in
 #print axioms C06_fetch_again_noop
+open Repo in
+#print axioms C06_move_fails_cache_unchanged
+open Repo in
+#print axioms C06_failed_final_move_leaves_no_object
+open Repo in
+#print axioms C06_final_move_faults_never_corrupt
+open Repo in
+#print axioms C06_final_move_tmp_independent
+open Repo in
+#print axioms C06_rebring_after_failed_move
+open Repo in
+#print axioms C06_in_place_copy_counterexample
+open Repo in
+#print axioms C06_failed_final_move_then_rebring_witness
